@@ -32,6 +32,7 @@ type Obligation struct {
 // Ctx is what rules write their results into.
 type Ctx struct {
 	Prog   *Program
+	Verif  string
 	Prop   string
 	Tier   string
 	Obs    []*Obligation
